@@ -107,6 +107,7 @@ func correlatedBody(kind string, nreq int, planSet []int, idShapes ...int) nd.Bo
 		var setupErr error
 		var env *vsess.Env
 		var misrouted []string
+		sentAfterReturn := map[string]bool{} // reply instances the peer sent after the request's caller had returned
 		var answered map[string]bool
 		ctxs := make([]context.Context, nreq)
 		cancels := make([]context.CancelFunc, nreq)
@@ -300,7 +301,10 @@ func correlatedBody(kind string, nreq int, planSet []int, idShapes ...int) nd.Bo
 			})
 			// late answers, a sentinel, and the peer closes its stream
 			for _, id := range deferred {
-				send(rep(id, "result"))
+				x, st := rep(id, "result")
+				// sent after every requester has returned: nobody waits for it any more
+				sentAfterReturn[st.n] = true
+				send(x, st)
 			}
 			inst++
 			send(fmt.Sprintf(`<message id='sentinel'>%s</message>`, marker(inst)), seenStanza{name: "message", id: "sentinel", n: fmt.Sprint(inst)})
@@ -404,12 +408,16 @@ func correlatedBody(kind string, nreq int, planSet []int, idShapes ...int) nd.Bo
 					// the serve loop may drop a reply when it finds the requester's
 					// context cancelled at hand-off time, whether or not the requester
 					// later obtains another (duplicate) reply
-					if ids[i] == st.id && o.cancelled && st.name == kind && (st.typ == "result" || st.typ == "error") {
+					if ids[i] == st.id && o.cancelled && st.name == kind && (st.typ == "result" || st.typ == "error") && !sentAfterReturn[st.n] {
 						tolerated = true
 					}
 				}
 				if !tolerated {
-					return fail("stanza-lost", "the peer sent %+v but neither a caller nor the handler saw it", st)
+					sig := "stanza-lost"
+					if sentAfterReturn[st.n] {
+						sig = "late-reply-lost"
+					}
+					return fail(sig, "the peer sent %+v but neither a caller nor the handler saw it", st)
 				}
 				nontrivial = true
 			}
